@@ -27,7 +27,7 @@ func SnapCmd(prop string) Cmd {
 			}
 		}
 		rep := Report{Property: prop, Seed: *f.Seed, Shard: ShardSize, Stats: map[string]int{}, Cases: len(cases),
-			Rule: "a primary builds and tears down chains next-hop <- group <- IPv4 entry in two instances (60 cycles per case) while two slow readers stream Get(all, ALL) and, in every second case, a Flush caller runs: every Get result must be, instance by instance, a closed state (a group's next-hops and an entry's same-instance group present, no key twice); non-trivial = at least one Get completed while writes were going on"}
+			Rule: "a primary builds and tears down chains next-hop <- group <- IPv4 entry in two instances (60 cycles per case) while two slow readers stream Get(all, ALL) and, in every second case, a Flush caller runs: every Get result must be free of repeated keys and, in the cases without a Flush caller, instance by instance a closed state (a group's next-hops and an entry's same-instance group present); non-trivial = at least one Get completed while writes were going on"}
 		for i, c := range cases {
 			p, st := SnapshotStress(c.Seed, c.Cycles, c.Flush)
 			if p != "" {
